@@ -62,6 +62,25 @@ theorem queue_bounded (limit : Nat) (arrivals : List Nat) (evs : List Ev) :
     rw [hs.2] at this
     exact this
 
+/-- No request is lost or left unanswered: once the connection has parsed (first event) and whenever the pipeline is idle
+(nothing in progress), every request that arrived has been answered, in order — for every order of completions. -/
+theorem idle_means_all_answered (limit : Nat) (hl : 0 < limit) (arrivals : List Nat) (evs : List Ev)
+    (hidle : (run (St.init limit arrivals) (.parse :: evs)).queue = []) :
+    (run (St.init limit arrivals) (.parse :: evs)).written = arrivals := by
+  have hsat : Saturated (run (St.init limit arrivals) (.parse :: evs)) := by
+    simp only [run, List.foldl_cons]
+    exact run_saturated _ evs (admitReqs_saturated _)
+  have hlim := (queue_bounded limit arrivals (.parse :: evs)).2
+  have hw : (run (St.init limit arrivals) (.parse :: evs)).waiting = [] := by
+    by_cases h : (run (St.init limit arrivals) (.parse :: evs)).waiting = []
+    · exact h
+    · have := hsat h
+      rw [hlim, hidle] at this
+      simp at this; omega
+  have ho := run_order (St.init limit arrivals) (.parse :: evs)
+  simp only [order, hidle, hw, List.append_nil] at ho
+  simpa [order, St.init] using ho
+
 -- non-vacuity / liveness on concrete histories: replies ready in reverse order are still delivered in request order
 example : (run (St.init 4 [1, 2, 3]) [.parse, .complete 3, .complete 2, .complete 1]).written = [1, 2, 3] := by decide
 -- with pipeline_prefetch 0 (limit 1) the second request is parsed only after the first was answered
